@@ -113,7 +113,12 @@ def model(action, table_id, pre_rows, post_rows, trig, fin, col_map):
         if k["when"] == MANUAL:
           changed = any(new_cell(r, d) != old(r, d) for d in g if d not in fin and d != c)
           if changed: exp.append((r, c, {o0 + 1}, "C15.fires_when_required"))
-          elif g: exp.append((r, c, {o, o0 + 1}, "C15.silent_otherwise"))
+          elif all(type(v) is type(old(r, d)) and v == old(r, d) for d, v in g.items()):
+            # "and never otherwise": every value given for this row IS the stored one, so the update
+            # does not change the row (other rows of the same bulk action may change)
+            exp.append((r, c, {o}, "C15.silent_otherwise"))
+          elif g:    # a given value differed but the cell ends as before (converted / recomputed)
+            exp.append((r, c, {o, o0 + 1}, "C15.silent_otherwise"))
           else: exp.append((r, c, {o}, "C15.silent_otherwise"))
           continue
         # DEFAULT
